@@ -685,11 +685,11 @@ class Spectrum:
                 if wave.size == 0 or lo < wave[0]:
                     head = True
                     wave = np.concatenate(([lo], wave))
-                    value = np.concatenate(([np.interp(lo, self.wave, self.value)], value))
+                    value = np.concatenate(([_interp_at(lo, self.wave, self.value)], value))
                 if hi > wave[-1]:
                     tail = True
                     wave = np.concatenate((wave, [hi]))
-                    value = np.concatenate((value, [np.interp(hi, self.wave, self.value)]))
+                    value = np.concatenate((value, [_interp_at(hi, self.wave, self.value)]))
 
         if wave.size < 2:
             # no interval inside the bounds: nothing to integrate
@@ -922,6 +922,16 @@ class Spectrum:
             dat[dat[:, 1] < 0, 1] = 0
 
         return cls(dat[:, 0], dat[:, 1], waveunit, valueunit)
+
+
+def _interp_at(x, wave, value):
+    # the linearly interpolated value at one wavelength inside the data range,
+    # formed in the arrays' own precision (np.interp refuses extended
+    # precision columns and would drop the imaginary part of complex ones)
+    k = min(max(int(np.searchsorted(wave, x, side='right')) - 1, 0), wave.size - 2)
+    w0, w1 = wave[k]*1.0, wave[k + 1]*1.0
+    v0, v1 = value[k]*1.0, value[k + 1]*1.0
+    return v0 + (v1 - v0)*((x - w0)/(w1 - w0))
 
 
 def _sampling(wave, method='min'):
